@@ -37,3 +37,7 @@ import Ymq.Props.C03Rho
 #print axioms Ymq.C03Rho.rho_semiprime_proper
 #print axioms Ymq.C03Rho.noSmall_below_top
 #print axioms Ymq.C01.rho_call_sites_return
+#print axioms Ymq.C01.rho_call_sites_total
+#print axioms Ymq.C01.rho_join_harmless
+#print axioms Ymq.C01.pp_join_harmless
+#print axioms Ymq.C01.rho_model_exact_on_guard
